@@ -14,28 +14,35 @@ open Registry
 theorem frame (reg : Reg) (ext : String) (acc : Nat → Ans) : (getreader reg ext acc).1 = reg := by
   simp [getreader, getreaderWith, Generated.getreaderCopies]
 
-/-- **C15 history.** After any history of opens the registry is the initial one … -/
-theorem history_registry (reg : Reg) : ∀ hist : List (String × (Nat → Ans)), (runHist reg hist).1 = reg
+/-- one step (auto-detecting or with the format named) leaves the registry unchanged -/
+theorem step_frame (reg : Reg) (o : Open) : (openStep reg o).1 = reg := by
+  unfold openStep
+  cases o.fmt with
+  | none => exact frame reg o.ext o.acc
+  | some n => rfl
+
+/-- **C15 history.** After any history of opens (auto-detected or with a named format, in any
+order, any number of times) the registry is the initial one … -/
+theorem history_registry (reg : Reg) : ∀ hist : List Open, (runHist reg hist).1 = reg
   | [] => rfl
-  | (ext, acc) :: rest => by
-    have hf := frame reg ext acc
+  | o :: rest => by
+    have hf := step_frame reg o
     have ih := history_registry reg rest
     simp only [runHist]
-    rw [show (getreader reg ext acc) = ((getreader reg ext acc).1, (getreader reg ext acc).2) from rfl]
+    rw [show (openStep reg o) = ((openStep reg o).1, (openStep reg o).2) from rfl]
     simp only [hf, ih]
 
 /-- … hence the reader selected for a probe file is the same after any history, for every probe. -/
-theorem history_independent (reg : Reg) (hist : List (String × (Nat → Ans))) (ext : String)
-    (acc : Nat → Ans) :
-    (getreader (runHist reg hist).1 ext acc).2 = (getreader reg ext acc).2 := by
+theorem history_independent (reg : Reg) (hist : List Open) (probe : Open) :
+    (openStep (runHist reg hist).1 probe).2 = (openStep reg probe).2 := by
   rw [history_registry]
 
 /-- **C15 idempotence**: opening the same file twice selects the same reader twice. -/
-theorem repeat_same (reg : Reg) (ext : String) (acc : Nat → Ans) :
-    (runHist reg [(ext, acc), (ext, acc)]).2 = [(getreader reg ext acc).2, (getreader reg ext acc).2] := by
+theorem repeat_same (reg : Reg) (o : Open) :
+    (runHist reg [o, o]).2 = [(openStep reg o).2, (openStep reg o).2] := by
   simp only [runHist]
-  rw [show (getreader reg ext acc) = ((getreader reg ext acc).1, (getreader reg ext acc).2) from rfl]
-  simp [frame]
+  rw [show (openStep reg o) = ((openStep reg o).1, (openStep reg o).2) from rfl]
+  simp [step_frame]
 
 /-- the selected reader accepts the file -/
 theorem choose_accepts (acc : Nat → Ans) : ∀ (l : Reg) (r : Nat), choose acc l = .ok r → acc r = .yes
